@@ -220,6 +220,9 @@ func (r *bufRun) get(c int) {
 			}
 			return []int{2}
 		}
+		if v == nil {
+			return []int{0, -1} // a value that was never put
+		}
 		return []int{0, v.(int)}
 	})
 	if !o.returned() {
